@@ -4,5 +4,13 @@ CONSTANTS
   Subs = {"s1", "s2"}
   ValuesOf <- ValuesT
   MaxOps <- OpsT2
+  InitTables <- TabNone
+  Foreign = {}
+  Movers = {}
+  Closers = {}
+  MaxMoves = 0
+  Atomic = FALSE
+  Dev_IterateLiveSlice = FALSE
+  Dev_SendErrorFailsWrite = FALSE
 INVARIANTS EventsInWriteOrder
 CHECK_DEADLOCK FALSE
